@@ -10,6 +10,7 @@ Case line:  `<BUF> <hex input|-> <schedule|-> ; <op> ; <op> ; …`
   atoms `i8 … usize`, `str`, `chr`.
 Answer: `M <model results of the in-domain prefix>[ ~] | V <the same> | S <spec results of that prefix>[ ~]`; with a
 4th header token `full`: `M <all model results> | V any | S any` (out-of-domain twins, differences only counted);
+a 4th header token `ss` changes nothing here (the harness runs that case in a child process on a small stack);
 the model runs on the event list with the given BUF, the spec on the plain input bytes. The in-domain prefix
 (`domPrefix`) ends at the first operation that reads an invalid / out-of-range integer token or a token when none
 is left; ` ~` marks that the script goes on outside the property's domain.
@@ -177,6 +178,8 @@ def handle (line : String) : String :=
   | hdr :: ops =>
     let (hdrToks, full) := match tokens hdr with
       | [a, b, c, "full"] => ([a, b, c], true)
+      -- header flag `ss` (wave 4): the harness answers this case on a small stack in a child process; same case for the model
+      | [a, b, c, "ss"] => ([a, b, c], false)
       | ts => (ts, false)
     match hdrToks with
     | bufS :: h0 :: s0 :: "+" :: more => handleMulti bufS (h0 :: s0 :: "+" :: more) ops
